@@ -280,6 +280,9 @@ func TestCheck(t *testing.T) {
 		fams := map[string]string{}
 		decisive, controls := 0, 0
 		for k, fr := range famTable {
+			if fr.ownAccepted+fr.ownRejected+fr.privAccepted+fr.privRejected == 0 {
+				continue
+			}
 			fams[k] = fmt.Sprintf("public-key-token accepted=%d rejected=%d; private-key-token rejected=%d accepted=%d", fr.ownAccepted, fr.ownRejected, fr.privRejected, fr.privAccepted)
 			if fr.ownAccepted > 0 && fr.privRejected+fr.privAccepted > 0 {
 				controls++
